@@ -61,7 +61,9 @@ CHECKS = {
         text="Exploration: the binaries of well-defined X programs (random programs, recursion to depth 199 with frames of 0-40 words, "
              "arrays filling the top of memory to the last word, empty-frame procedures leaving by stop/exit/return at every call depth) are "
              "executed with every fetch, load and store checked against the memory limit and the image's code/data regions, the stack-pointer "
-             "word monitored on every store and compared at the return of main; the run is stopped before an access would leave memory.",
+             "word monitored on every store and compared whenever control arrives back at the entry stub; the run is stopped before an access "
+             "would leave memory. Added families: main entered again from X code, calls inside later actuals and subscripts, array copies, "
+             "bounds tests guarding an access one element past either array.",
         note="Trusted: harness/refisa.hpp callbacks and the region rule (code = from the entry branch target to the end of the image). "
              "Dynamic: only executed code is observed.",
         ref="4/C08"),
@@ -71,7 +73,9 @@ CHECKS = {
         text="Exploration with a complete grid: every binary operator over a 61-value operand set on each side (all boundary values for "
              "immediate/pool loads and the 32-bit limits, including pairs whose sum or difference wraps), unary operators, boolean operators "
              "over 0/1, and random trees up to depth 5 with K/R/M leaf assignments, each placed in eight contexts (exit argument, assignment, "
-             "actual, return, condition, system-call argument, subscript, nested operand). Variants must exit with the same value and output.",
+             "actual, return, condition, system-call argument, subscript, nested operand; also val initialiser, nested constant, and the value "
+             "itself as an if/while condition). Constants are spelled as numbers, true/false, character and hexadecimal literals; one leaf may be "
+             "wrapped in a call with an output side effect in every variant. Variants must exit with the same value and output.",
         note="Oracle = equality of variants (that is the property); the 32-bit wrap value is logged only for diagnosis. Values between the grid points are sampled.",
         ref="4/C07"),
     "C15": dict(
@@ -81,7 +85,8 @@ CHECKS = {
              "run with tracing into a string stream; every record's count/address/symbol+offset/mnemonic/operand is matched against the "
              "reference model's k-th step and the code ranges read from the binary's own table; the table must list each procedure once in "
              "address order; procedure entries detected on the reference model (LDAP+BR) must land on the table offsets of the reference "
-             "interpreter's call log (as a sequence when the source forces the order, as a multiset otherwise).",
+             "interpreter's call log (as a sequence when the source forces the order, as a multiset otherwise). Programs with never-called "
+             "filler procedures push code beyond byte offsets 2^16, 200000, 2^18 and (thorough) 2^19.",
         note="Trusted: refisa step trace, lib/xref.py call log, lib/asmsrc.parse_debug. Also checks that tracing changes neither exit value, input position nor system calls.",
         ref="4/C15"),
     "C03": dict(
@@ -91,7 +96,8 @@ CHECKS = {
              "and memory poked by name through Verilator's public-variable tables, 2% reached architecturally from reset), execute-driven "
              "defined sequences and toolchain binaries from reset; after every clock pc/areg/breg/oreg must equal hexsim's and the "
              "reference's after one instruction, the store request (valid/we/address/data) and the written word must match, and "
-             "o_syscall_valid/o_syscall must equal 'instruction is SVC'/areg[1:0].",
+             "o_syscall_valid/o_syscall must equal 'instruction is SVC'/areg[1:0]. Non-zero registers are planted before every reset, and "
+             "random code is run from reset with every byte value in turn at address 0; stores into the word being executed are included.",
         note="Trusted: refisa (range filter: byte addresses < 800000, words < 200000, defined opcodes) and Verilator honouring pokes (self-checked). Register values are sampled.",
         ref="4/C03"),
     "C16": dict(
@@ -99,7 +105,8 @@ CHECKS = {
         engine="rtl-lockstep",
         text="Exploration, exhaustive in the instruction-byte dimension: all 256 bytes x planted states, random byte sequences from reset "
              "and toolchain binaries; before each clock edge the seven processor outputs and after it the four registers and the written "
-             "memory word are compared between the three models, under randReset 0/1/2 and --x-assign/--x-initial unique.",
+             "memory word are compared between the three models, under randReset 0/1/2 and --x-assign/--x-initial unique; mid-run resets are "
+             "held over a clock edge or pulsed between two edges.",
         note="Behavioural, two-state simulation; X terms of the sv2v text are sampled. Textual identity of the two copies is reported as information only.",
         ref="4/C16"),
     "C13": dict(
@@ -109,7 +116,8 @@ CHECKS = {
              "status compared with hexsim; (2) a harness linking hextb.cpp with a Vhex_pkg model plants, before load(), registers and "
              "non-image memory so that a pre-reset clock edge would service a system call, store into each class of image word or arrive "
              "at reset with dirty registers; full runs must give the clean result and runs cut just before the first post-reset "
-             "instruction must show zero registers, an intact image, no output and no input consumed.",
+             "instruction must show zero registers, an intact image, no output and no input consumed. The fixed binaries include programs "
+             "whose input runs out, input bytes >= 0x80, reads at a fresh stack depth and a file stream without a file.",
         note="Power-on states are sampled and targeted, not enumerated. Expected result = hexsim on the same binary/input.",
         ref="4/C13"),
     "C06": dict(
@@ -117,7 +125,9 @@ CHECKS = {
         engine="rtl-lockstep",
         text="Exploration: binaries of generated well-defined X programs and the shipped sources, 1-2 inputs each (empty, bytes >= 0x80, "
              "reads past end of input, file streams), run on both executables built from the tree and, in-process, on hextb.cpp's own "
-             "load()/run() versus hexsim::Processor with the number of consumed input bytes compared.",
+             "load()/run() versus hexsim::Processor with the number of consumed input bytes compared; the executables read their input from "
+             "a regular file and the position it is left at is compared. Hand-written-style assembly programs add shapes no compiler emits "
+             "(adjacent SVC, use of the zero start state of the registers, corner constants, a word-size loop).",
         note="Trusted: lib/xref.py only as the filter for 'well-defined'. hextb runs use a fixed seed here; seed independence is C13.",
         ref="4/C06"),
     "C14": dict(
@@ -127,7 +137,9 @@ CHECKS = {
              "lexer/parser/semantic/label errors) are passed to the hexasm, xcmp and xrun executables built from the tree in fresh "
              "directories with every argument order and option spelling, output names with directories and spaces, the output path absent "
              "or pre-filled with a sentinel; status, diagnostics, the file written (byte-equal to the in-process image), absence of other "
-             "new or changed files, and xrun == xcmp+hexsim (stdout and status = exit value & 0xFF) are checked.",
+             "new or changed files, and xrun == xcmp+hexsim (stdout and status = exit value & 0xFF) are checked; also rejections without a "
+             "source location, --memory-info, a second xrun in the same directory, cycle-limit boundaries and programs comparing input "
+             "bytes >= 0x80.",
         note="Acceptance ground truth from the in-process library call on the same bytes. I/O faults are outside the property.",
         ref="4/C14"),
     "C12": dict(
@@ -137,7 +149,9 @@ CHECKS = {
              "well-defined generated programs and infinite loops cut by --max-cycles are run (a) as the hexsim executable under 6-8 host "
              "states incl. an LD_PRELOAD shim that fills 6 MiB of stack with seeded patterns before main, (b) in-process with the Processor "
              "placement-constructed in storage filled with 0x00/0xFF/0xA5/PRNG bytes in lock-step with the reference model (zero memory), "
-             "with tracing on and off, (c) under memcheck. Output, exit status, input position and system calls must be identical.",
+             "with tracing on and off, and once after another simulation in the same process that dirtied all of memory, (c) under memcheck. "
+             "Output, exit status, input position (also as the position a regular-file standard input is left at) and system calls must be "
+             "identical. Also: file streams that are missing, empty or exhausted, image files that end early, long traced runs.",
         note="A run that observes no read-before-write is inconclusive. Host states are sampled.",
         ref="4/C12"),
     "C11": dict(
@@ -145,8 +159,10 @@ CHECKS = {
         engine="procmon",
         text="Exploration: generated, shipped and 'accepted but unusual' X and assembly sources are compiled by the xcmp/hexasm "
              "executables under 12-16 host states for every output action (binary, -S, --tree, --tree-opt, --insts*, --instrs, --tokens) "
-             "and must be byte-identical; in-process the same source is compiled first, third and fiftieth in a process; memcheck reports "
-             "any dependence on uninitialised memory directly.",
+             "and must be byte-identical; in-process the same source is compiled first, third and fiftieth in a process, and through a Driver "
+             "(lexer and parser for hexasm) object that has already processed 2-9 other sources, a third of them hand-written unusual ones "
+             "(rejected at each stage, out-of-range literals), with the listing produced before or after the binary; memcheck reports any "
+             "dependence on uninitialised memory directly.",
         note="Host states are a sample; memcheck narrows the gap.",
         ref="4/C11"),
     "C09": dict(
@@ -155,8 +171,10 @@ CHECKS = {
         text="Exploration: 1.5e5 (quick) to 3e6 (thorough) byte strings up to 4 KiB - random bytes, printable noise, token soups, "
              "token-level mutations/splices/truncations of generated and shipped programs, deep nesting, ~50 families of grammatical but "
              "semantically odd programs - through xcmp::Driver in the sanitizer build, one forked process per case; a sample through the "
-             "real main() (sanitizer build of xcmp.cpp) and a sample under memcheck. Violation = sanitizer report, assertion, signal, "
-             "non-std exception, confirmed hang, or an outcome that is neither (image, no diagnostic) nor (diagnostic, no output).",
+             "real main() (sanitizer build of xcmp.cpp, incl. rejected lines containing every byte value) and a sample plus the enumerated "
+             "forms under memcheck. Violation = sanitizer report, assertion, signal, non-std exception, confirmed hang, an outcome that is "
+             "neither (image, no diagnostic) nor (diagnostic, no output), or an error object of a class that is always given a source "
+             "position but carries none.",
         note="A clean sanitizer run is not memory safety (intra-object overflows are invisible to red zones). Watchdog firings are re-run alone at 10x budget; unreproduced ones are counted, not reported.",
         ref="4/C09"),
     "C10": dict(
